@@ -854,3 +854,6 @@ M("c04-neutral-rename-sweep-loop-variable", "C04", "cola/libavoid/visibility.cpp
 M("c09-neutral-rename-copyback-iterators", "C09", "cola/libvpsc/rectangle.cpp",
   "        Rectangles::iterator r=rs.begin();\n        for(v=vs.begin();v!=vs.end();++v,++r) {\n            COLA_ASSERT(ISNOTNAN((*v)->finalPosition));\n            (*r)->moveCentreX((*v)->finalPosition);\n        }\n        COLA_ASSERT(r==rs.end());",
   "        Rectangles::iterator r=rs.begin();\n        for(v=vs.begin();v!=vs.end();++v,++r) {\n            Variable *solved=*v;\n            COLA_ASSERT(ISNOTNAN(solved->finalPosition));\n            (*r)->moveCentreX((*v)->finalPosition);\n        }\n        COLA_ASSERT(r==rs.end());", expect="silent")
+M("c15-router-dtor-ignores-queued-additions", "C15", "cola/libavoid/router.cpp",
+  "    for (ActionInfoList::iterator act = actionList.begin();\n            act != actionList.end(); ++act)\n    {\n        if ((act->type == ShapeAdd) || (act->type == JunctionAdd))\n        {\n            queuedObstacles.push_back(act->obstacle());\n        }\n        else if ((act->type == ConnChange) && !act->conn()->m_active)\n        {\n            queuedConns.push_back(act->conn());\n        }\n    }\n",
+  "", mention=["ROUTER-DTOR-QUEUED"])
